@@ -74,8 +74,15 @@ namespace {
     std::string format(const T& when) {
       std::tm data(to_tm(when));
       char buf[128];
-      std::strftime(buf, 127, fmt_str.c_str(), &data);
-      return buf;
+      // strftime answers 0 when the text does not fit, and leaves the buffer
+      // undefined.  It also answers 0 for an empty text, so a leading blank
+      // tells the two apart.
+      const std::string fmt(" " + fmt_str);
+      std::size_t len = std::strftime(buf, 127, fmt.c_str(), &data);
+      if (len == 0)
+        throw_(date_error,
+               _f("Date format '%1%' yields more than 125 characters") % fmt_str);
+      return std::string(buf + 1, len - 1);
     }
   };
 
